@@ -101,6 +101,7 @@ type xOp struct {
 	// cflag (round 3): core.NewClientConfigForCommand on a command whose flag set is Names (ALL flags, in VisitAll order:
 	// core.ClientConfigFlags plus the command's own), with Args set on the command line and NUTS_TOKEN = EnvToken
 	Acts     []string `json:"acts,omitempty"` // dummy: history of calls on one dummy.Dummy: start | status:<n> (n-th started session) | verify
+	Cmd      string   `json:"cmd,omitempty"` // cflag: path of a REAL client command in the tree of CreateCommand (e.g. "vdr create-did"); "" = a synthetic command
 	Names    []string `json:"names,omitempty"`
 	EnvToken *string  `json:"envtoken,omitempty"`
 	// cap: the server answering last sends a body of this many bytes (Content-Length, or chunked)
@@ -869,7 +870,17 @@ var xSchemes = []string{"https://", "https://", "https://", "http://", "HTTPS://
 // xClientFlags: the CLI client's loader (environment, then loadFromFlagSet — a refusal panics) on a real cobra command
 func xClientFlags(op xOp) (line string) {
 	cmd := &cobra.Command{Use: "verif"}
-	cmd.Flags().AddFlagSet(core.ClientConfigFlags())
+	if op.Cmd != "" {
+		// a fresh command tree per op: AddFlagSet shares the *pflag.Flag objects between all client commands
+		root := CreateCommand(CreateSystem(func() {}))
+		c, rest, err := root.Find(strings.Fields(op.Cmd))
+		if err != nil || len(rest) != 0 || c == root {
+			return "cflag no-such-command"
+		}
+		cmd = c
+	} else {
+		cmd.Flags().AddFlagSet(core.ClientConfigFlags())
+	}
 	for _, n := range op.Names {
 		if cmd.Flags().Lookup(n) == nil {
 			cmd.Flags().String(n, "", "a flag of the command itself")
@@ -929,6 +940,22 @@ func xGenClientFlags(r *rand.Rand, thorough bool) []xOp {
 	}
 	envTok := "env-secret"
 	var ops []xOp
+	// every REAL command of the tree that offers --token: --token alone, --token with --address, and no secret + NUTS_TOKEN
+	var walk func(c *cobra.Command, path []string)
+	walk = func(c *cobra.Command, path []string) {
+		if c.Flags().Lookup("token") != nil {
+			var names []string
+			c.Flags().VisitAll(func(f *pflag.Flag) { names = append(names, f.Name) })
+			p := strings.Join(path, " ")
+			ops = append(ops, xOp{Op: "cflag", Cmd: p, Names: names, Args: []string{"token=" + val("token")}, Strict: true, Tag: "cflag-real-command"},
+				xOp{Op: "cflag", Cmd: p, Names: names, Args: []string{"address=" + val("address"), "token=" + val("token")}, EnvToken: &envTok, Strict: true, Tag: "cflag-real-command"},
+				xOp{Op: "cflag", Cmd: p, Names: names, Args: []string{"address=" + val("address")}, EnvToken: &envTok, Strict: true, Tag: "cflag-real-command"})
+		}
+		for _, sub := range c.Commands() {
+			walk(sub, append(append([]string{}, path...), sub.Name()))
+		}
+	}
+	walk(CreateCommand(CreateSystem(func() {})), nil)
 	ops = append(ops, mk(nil, nil, nil, "cflag-none"), mk(nil, nil, &envTok, "cflag-env"))
 	for _, n := range base {
 		ops = append(ops, mk(nil, []string{n}, nil, "cflag-single"), mk(nil, []string{n}, &envTok, "cflag-single"))
